@@ -35,10 +35,14 @@ package sign
 // ---- start functions (C20): no session without complete key material and a non-empty message hash
 //@ func StartSignReceiver$1
 //@   nopanic[C20]
+// (C09) the session tag is derived under the signing protocol's OWN identifier -- distinct from every other protocol's
+//@   assert_at[C09] NewSession "helper, err := round.NewSession(info, sessionID, nil)": arg0.ProtocolID == "doerner/sign" && arg0.FinalRoundNumber == 2
 //@   ensures[C20] result1 != nil ==> result0 == nil
 //@   ensures[C20] result1 == nil ==> (result0 != nil && config != nil && config.Public != nil && config.SecretShare != nil && config.Setup != nil && len(hash) > 0)
 //@ func StartSignSender$1
 //@   nopanic[C20]
+// (C09) the session tag is derived under the signing protocol's OWN identifier -- distinct from every other protocol's
+//@   assert_at[C09] NewSession "helper, err := round.NewSession(info, sessionID, nil)": arg0.ProtocolID == "doerner/sign" && arg0.FinalRoundNumber == 2
 //@   ensures[C20] result1 != nil ==> result0 == nil
 //@   ensures[C20] result1 == nil ==> (result0 != nil && config != nil && config.Public != nil && config.SecretShare != nil && config.Setup != nil && len(hash) > 0)
 
